@@ -182,7 +182,7 @@ Definition off_witness : list event :=
    requested after its files were switched off. (Replayed on the real code: corpus/C04/witnesses.case #2.) *)
 Theorem request_wanted_now_refuted :
   exists evs s s', run s0 evs = Some s /\ accept s (SRequest 0 0 16384 16384) = Some s' /\ getb (s_wanted s) 0 = false.
-Proof. exists off_witness. eexists. eexists. repeat split; vm_compute; reflexivity. Qed.
+Proof. exists off_witness. eexists. eexists. split; [vm_compute; reflexivity|]. split; vm_compute; reflexivity. Qed.
 
 (* ---------- satisfiability of the hypotheses used above ---------- *)
 Example ex_accepted_trace : exists s, run s0 dup_witness = Some s.
@@ -195,12 +195,17 @@ Proof. eexists. eexists. split; vm_compute; reflexivity. Qed.
 Example ex_disconnect_reissue : exists s cp s', run s0 [Join 0 t3; Join 1 t3; SInterested 0; SInterested 1; Unchoke 0; Unchoke 1;
                                                        SRequest 0 1 0 16384] = Some s /\
   get_conn s 0%nat = Some cp /\ accept s (Disc 0) = Some s' /\ not_stalled s 1 0 = not_stalled_in cp 1 0 /\ not_stalled s 1 0 = 1.
-Proof. eexists. eexists. eexists. repeat split; vm_compute; reflexivity. Qed.
+Proof.
+  eexists. eexists. eexists. split; [vm_compute; reflexivity|]. split; [vm_compute; reflexivity|].
+  split; [vm_compute; reflexivity|]. split; vm_compute; reflexivity.
+Qed.
 
 Example ex_choke_stall_fin : exists s1 s2 s3 s4,
   run s0 [Join 0 t3; SInterested 0; Unchoke 0; SRequest 0 2 0 16384; SRequest 0 2 16384 16384] = Some s1 /\
   accept s1 (StallTick 0 false) = Some s2 /\ accept s1 (Choke 0) = Some s3 /\ accept s3 (DropChoked 0) = Some s4.
-Proof. do 4 eexists. repeat split; vm_compute; reflexivity. Qed.
+Proof.
+  do 4 eexists. split; [vm_compute; reflexivity|]. split; [vm_compute; reflexivity|]. split; vm_compute; reflexivity.
+Qed.
 
 Example ex_fin : exists s s', run s0 [Join 0 t3; SInterested 0; Unchoke 0; SRequest 0 2 0 16384; SRequest 0 2 16384 16384;
                                       Piece 0 2 0 16384; Piece 0 2 16384 16384] = Some s /\ accept s (Fin 2) = Some s'.
